@@ -404,7 +404,7 @@ func (fv *FuncVerifier) evalFuncCall(fn *types.Func, call *ast.CallExpr, st *Sta
 	defer func() { fv.curCall = savedCall }()
 	key := funcKey(fn)
 	sig := fn.Type().(*types.Signature)
-	if fv.specMode == 0 && !fv.termMode && fv.frame().top && len(fv.spec.AtCalls[fn.Name()]) > 0 {
+	if fv.specMode == 0 && !fv.termMode && (fv.frame().top || fv.frame().fd == fv.fd) && len(fv.spec.AtCalls[fn.Name()]) > 0 {
 		fv.checkAtCall(fn, call, st)
 	}
 	// specification helpers
@@ -437,6 +437,9 @@ func (fv *FuncVerifier) evalFuncCall(fn *types.Func, call *ast.CallExpr, st *Sta
 	if sp == nil {
 		if key == "sort.Search" {
 			return fv.sortSearch(call, st)
+		}
+		if key == "golang.org/x/sync/errgroup.Group.Go" || key == "golang.org/x/sync/errgroup.Group.Wait" {
+			return fv.errgroupCall(fn, call, st)
 		}
 		if m, ok := builtinModels[key]; ok {
 			args, wb := fv.receiverAndArgs(fn, call, st)
@@ -612,6 +615,17 @@ func (fv *FuncVerifier) evalSpecHelper(fn *types.Func, call *ast.CallExpr, st *S
 		a := fv.eval(call.Args[0], st)
 		b := fv.eval(call.Args[1], st)
 		return []Term{errIs(a, b)}
+	case "__wgerr":
+		// the error recorded so far by the (single) errgroup.Group of the verified function
+		if len(fv.wgVars) > 1 {
+			reject("__wgerr(): the function uses %d errgroup.Group variables", len(fv.wgVars))
+		}
+		for _, o := range fv.wgVars {
+			if v, ok := st.vars[o]; ok {
+				return []Term{v}
+			}
+		}
+		return []Term{{"0", &Sort{Name: "Int", Kind: KErr}}}
 	case "__recvs":
 		// number of channel receives executed since the verified function was entered
 		return []Term{fv.recvCount(st)}
@@ -983,6 +997,63 @@ func (fv *FuncVerifier) sortSearch(call *ast.CallExpr, st *State) []Term {
 	st.assume(implies(mk(sortBool, "(> %s 0)", r.S), not(at(prev))))
 	fv.u.note("sort.Search modelled by what binary search establishes: f(r) if r < n, !f(r-1) if r > 0")
 	return []Term{r}
+}
+
+// errgroupCall models golang.org/x/sync/errgroup on a local Group variable: g.Go(func() error {...})
+// runs the function literal at the call (one of the possible schedules: the claim must not depend
+// on how the goroutines interleave), and records its result in the group's error, which is the
+// first non-nil error of any of them (which one is arbitrary); g.Wait() returns that error.
+// __wgerr() in contracts is the group's error so far.
+func (fv *FuncVerifier) errgroupCall(fn *types.Func, call *ast.CallExpr, st *State) []Term {
+	se, ok := ast.Unparen(call.Fun).(*ast.SelectorExpr)
+	if !ok {
+		reject("errgroup call at %s", fv.pos(call.Pos()))
+	}
+	id, ok := ast.Unparen(se.X).(*ast.Ident)
+	if !ok || fv.specMode > 0 || fv.termMode {
+		reject("errgroup.Group that is not a local variable at %s", fv.pos(call.Pos()))
+	}
+	obj := fv.wgObj(fv.info().Uses[id])
+	errSort := &Sort{Name: "Int", Kind: KErr}
+	cur, ok := st.vars[obj]
+	if !ok {
+		cur = Term{"0", errSort}
+	}
+	if fn.Name() == "Wait" {
+		return []Term{cur}
+	}
+	lit, ok := ast.Unparen(call.Args[0]).(*ast.FuncLit)
+	if !ok {
+		reject("errgroup.Group.Go with something other than a function literal at %s", fv.pos(call.Pos()))
+	}
+	res := fv.runClosureBody(lit, fv.frame(), nil, st)
+	if len(res) != 1 || res[0].Sort == nil {
+		reject("errgroup.Group.Go: function literal without an error result at %s", fv.pos(call.Pos()))
+	}
+	e := res[0]
+	nilE := Term{"0", errSort}
+	pick := fv.u.freshConst("wgpick", sortBool)
+	// both non-nil: either may be the one Wait reports
+	nv := ite(eq(cur, nilE), e, ite(eq(e, nilE), cur, ite(pick, cur, e)))
+	nv.Sort = errSort
+	st.vars[obj] = fv.def("wgerr", nv)
+	fv.u.note("errgroup: each Go(func) is executed at the call (sequentialised goroutines); Wait returns one of the non-nil results, nil only if all were nil")
+	return nil
+}
+
+func (fv *FuncVerifier) wgObj(v types.Object) types.Object {
+	if v == nil {
+		reject("errgroup.Group variable unresolved")
+	}
+	if fv.wgVars == nil {
+		fv.wgVars = map[types.Object]*types.Var{}
+	}
+	if o := fv.wgVars[v]; o != nil {
+		return o
+	}
+	o := types.NewVar(token.NoPos, nil, "wgerr_"+v.Name(), types.Universe.Lookup("error").Type())
+	fv.wgVars[v] = o
+	return o
 }
 
 // ---------------------------------------------------------------- pure functions
